@@ -48,6 +48,10 @@ EXPLANATION += ' Added: (R14, R15) the shells sit on the nuclei the file says: M
 # --- metadata added after the round-3 refactoring twins
 EXPLANATION += " A module function the cascade calls as a bare statement (a procedure that stores the accepted values) is interpreted with the cascade in R9 instead of being stubbed as a correction helper; R2's store template defers to R9 there."
 # --- end metadata round-3 twins
+# --- metadata added after the round-4 refactoring twins
+TECHNIQUE += '; evaluation of the correction helpers per shell type and contraction length'
+EXPLANATION += ' R5: every helper that returns a factor vector is interpreted on a one-shell basis for every shell type; the vector must have one entry per function. R7: a path that bypasses the correction is accepted only if, evaluated on contractions of 1, 2 and 3 primitives per type, the helper rescales the same shell types each time and each touched shell as a whole (the bypass depends on the shell type only).'
+# --- end metadata round-4 twins
 
 
 def static_len(e):
